@@ -63,7 +63,9 @@ var c16Rejectables = []string{"99999999999999999999", "1e999", `"\q"`, "a:b:c", 
 	"#o8", "#xG", "1.", "#!late", "#'", "#^", "pkg:1", "#'-1", `"""open`, "-9223372036854775809", "#x8000000000000000"}
 var c16HashBangs = []string{"#!/usr/bin/env elps", "#!", "#! ", "#!x ; y", "#!é", "#!/bin/sh -e  ", "#!(a)"}
 var c16CommentBodies = []string{"", " c", "c", " note", " trailing spaces   ", "\t tab", " (unbalanced", " \"quote", " #!/bin/sh", " é unicode ☃",
-	" ;; nested ;", " ^^^ carets", " <- marker", " TODO: x", " 'q #^u #'f", " [", " )", "   lead"}
+	" ;; nested ;", " ^^^ carets", " <- marker", " TODO: x", " 'q #^u #'f", " [", " )", "   lead",
+	// a lone carriage return does not end a comment (only a line feed does)
+	" cr\rin the middle", " cr\r)", " cr at end\r", " \r", " a\rb\rc"}
 
 type c16Style struct {
 	pComment, pNewline, pBlank, pGlue, pWeird int
